@@ -99,52 +99,52 @@ def _facts(P):
     return E, env, b, d, tr, n, g, cnt, t, bz, bp
 
 
+def _cmap(E, ident):
+    key = [kk for kk in E.st.ghost.get('cmap_inst', {}) if kk[1] == ident][0]
+    return E.st.ghost['cmap_inst'][key], E.st.ghost[key]
+
+
 def _after_transitions(P):
+    """facts about the transition indices (all steps are quantifier-free obligations with explicit instances)"""
     E, env, b, d, tr, n, g, cnt, t, bz, bp = _facts(P)
-    i, j, k = z3.Ints('pi pj pk')
-    key = [kk for kk in E.st.ghost.get('cmap_axioms', {}) if kk[1] == tr.meta['nonzero_of'].ident][0]
-    P.register('AX', E.st.ghost['cmap_axioms'][key])           # assumed contract of np.flatnonzero (counting function)
-    # parity: the number of transitions before position i is even exactly when the (padded) array is False at i-1
-    P.induct('parity', lambda x: (cnt(x) % 2 == 0) == z3.Not(bp(x - 1)), z3.IntVal(0), n + 1, using=['AX'])
-    P.have('parity-at-end', (cnt(n + 1) % 2 == 0) == z3.Not(bp(n)), using=['parity'])
-    P.have('t-even', t % 2 == 0, using=['parity-at-end', 'AX'])
+    AX, _ = _cmap(E, tr.meta['nonzero_of'].ident)
+    x, i0, j, k, i = z3.Ints('px pi0 pj pk pi')
+    # parity: the number of transitions before position x is even exactly when the (padded) array is False at x-1
+    P.induct_q('parity', x, 0, n + 1, (cnt(x) % 2 == 0) == z3.Not(bp(x - 1)), lambda it: [AX['rec'](it)])
+    P.ground('t-even', t % 2 == 0, by=[P.inst('parity', n + 1)])
     # cnt is monotone
-    P.induct('mono', lambda x: z3.ForAll([i], z3.Implies(z3.And(0 <= i, i <= x), cnt(i) <= cnt(x))), z3.IntVal(0), n + 1,
-             using=['AX'])
-    P.have('mono2', z3.ForAll([i, j], z3.Implies(z3.And(0 <= i, i <= j, j <= n + 1), cnt(i) <= cnt(j)),
-                              patterns=[z3.MultiPattern(cnt(i), cnt(j))]), using=['mono'])
-    P.have('cnt-after-g', z3.ForAll([k], z3.Implies(z3.And(0 <= k, k < t), z3.And(cnt(g(k) + 1) == k + 1, cnt(g(k)) == k,
-                                                                                  0 <= g(k), g(k) <= n)),
-                                    patterns=[g(k)]), using=['AX'])
-    P.have('cnt-le-t', z3.ForAll([i], z3.Implies(z3.And(0 <= i, i <= n + 1), z3.And(0 <= cnt(i), cnt(i) <= t)),
-                                 patterns=[cnt(i)]), using=['AX', 'mono2'])
+    P.induct_q('mono', j, i0, n + 1, cnt(i0) <= cnt(j), lambda it: [AX['rec'](it)], params=[i0], prem=(0 <= i0))
+    P.forall('cnt-after-g', [k], z3.And(0 <= k, k < t),
+             z3.And(cnt(g(k) + 1) == k + 1, cnt(g(k)) == k, 0 <= g(k), g(k) <= n),
+             by=[AX['sel'](k), AX['rec'](g(k))], patterns=[g(k)])
+    P.forall('cnt-le-t', [i], z3.And(0 <= i, i <= n + 1), z3.And(0 <= cnt(i), cnt(i) <= t),
+             by=[P.inst('mono', 0, i), P.inst('mono', i, n + 1)], patterns=[cnt(i)])
     # position of the k-th transition relative to i
-    P.have('g-vs-cnt-1', z3.ForAll([k, i], z3.Implies(z3.And(0 <= k, k < t, 0 <= i, i <= n + 1, g(k) < i), k < cnt(i)),
-                                   patterns=[z3.MultiPattern(g(k), cnt(i))]), using=['mono2', 'cnt-after-g'])
-    P.have('g-vs-cnt-2', z3.ForAll([k, i], z3.Implies(z3.And(0 <= k, k < t, 0 <= i, i <= n + 1, k < cnt(i)), g(k) < i),
-                                   patterns=[z3.MultiPattern(g(k), cnt(i))]), using=['mono2', 'cnt-after-g'])
+    P.forall('g-vs-cnt-1', [k, i], z3.And(0 <= k, k < t, 0 <= i, i <= n + 1, g(k) < i), k < cnt(i),
+             by=[P.inst('cnt-after-g', k), P.inst('mono', g(k) + 1, i)])
+    P.forall('g-vs-cnt-2', [k, i], z3.And(0 <= k, k < t, 0 <= i, i <= n + 1, k < cnt(i)), g(k) < i,
+             by=[P.inst('cnt-after-g', k), P.inst('mono', i, g(k))])
     # a True position lies in the run between transitions cnt(j+1)-1 (on) and cnt(j+1) (off)
-    P.have('true-odd', z3.ForAll([j], z3.Implies(z3.And(0 <= j, j < n, bz(j)),
-                                                 z3.And(cnt(j + 1) % 2 == 1, 1 <= cnt(j + 1), cnt(j + 1) < t)),
-                                 patterns=[cnt(j + 1)]), using=['parity', 't-even', 'cnt-le-t'])
-    P.have('true-in-run', z3.ForAll([j], z3.Implies(z3.And(0 <= j, j < n, bz(j)),
-                                                    z3.And(g(cnt(j + 1) - 1) <= j, j < g(cnt(j + 1)))),
-                                    patterns=[cnt(j + 1)]), using=['true-odd', 'g-vs-cnt-1', 'g-vs-cnt-2'])
+    P.forall('true-odd', [j], z3.And(0 <= j, j < n, bz(j)),
+             z3.And(cnt(j + 1) % 2 == 1, 1 <= cnt(j + 1), cnt(j + 1) < t),
+             by=[P.inst('parity', j + 1), P.inst('cnt-le-t', j + 1), P.inst('t-even')])
+    P.forall('true-in-run', [j], z3.And(0 <= j, j < n, bz(j)),
+             z3.And(g(cnt(j + 1) - 1) <= j, j < g(cnt(j + 1))),
+             by=[P.inst('true-odd', j), P.inst('g-vs-cnt-2', cnt(j + 1) - 1, j + 1), P.inst('g-vs-cnt-1', cnt(j + 1), j + 1)])
     # between two consecutive transitions the transition count is constant ...
-    P.have('run-interior-cnt', z3.ForAll([k, j], z3.Implies(z3.And(0 <= k, k + 1 < t, g(k) <= j, j < g(k + 1)),
-                                                            z3.And(0 <= j, j < n + 1, cnt(j + 1) == k + 1)),
-                                         patterns=[z3.MultiPattern(g(k), cnt(j + 1))]),
-           using=['g-vs-cnt-1', 'g-vs-cnt-2', 'cnt-after-g'])
+    P.forall('run-interior-cnt', [k, j], z3.And(0 <= k, k + 1 < t, g(k) <= j, j < g(k + 1)),
+             z3.And(0 <= j, j <= n, cnt(j + 1) == k + 1),
+             by=[P.inst('cnt-after-g', k), P.inst('cnt-after-g', k + 1), P.inst('g-vs-cnt-1', k, j + 1),
+                 P.inst('g-vs-cnt-2', k + 1, j + 1), P.inst('cnt-le-t', j + 1)])
     # ... so after an even transition everything up to the next transition is True
-    P.have('run-interior-true', z3.ForAll([k, j], z3.Implies(z3.And(0 <= k, k + 1 < t, k % 2 == 0, g(k) <= j, j < g(k + 1)),
-                                                             z3.And(j < n, bz(j))),
-                                          patterns=[z3.MultiPattern(g(k), cnt(j + 1))]),
-           using=['run-interior-cnt', 'parity'])
+    P.forall('run-interior-true', [k, j], z3.And(0 <= k, k + 1 < t, k % 2 == 0, g(k) <= j, j < g(k + 1)),
+             z3.And(j < n, bz(j)),
+             by=[P.inst('run-interior-cnt', k, j), P.inst('parity', j + 1)])
     # runs are maximal
-    P.have('run-left-end', z3.ForAll([k], z3.Implies(z3.And(0 <= k, k < t, k % 2 == 0), z3.Not(bp(g(k) - 1))), patterns=[g(k)]),
-           using=['parity', 'cnt-after-g'])
-    P.have('run-right-end', z3.ForAll([k], z3.Implies(z3.And(0 <= k, k < t, k % 2 == 1), z3.And(g(k) <= n, z3.Not(bp(g(k))))),
-                                      patterns=[g(k)]), using=['parity', 'cnt-after-g'])
+    P.forall('run-left-end', [k], z3.And(0 <= k, k < t, k % 2 == 0), z3.Not(bp(g(k) - 1)),
+             by=[P.inst('cnt-after-g', k), P.inst('parity', g(k))])
+    P.forall('run-right-end', [k], z3.And(0 <= k, k < t, k % 2 == 1), z3.And(g(k) <= n, z3.Not(bp(g(k)))),
+             by=[P.inst('cnt-after-g', k), P.inst('parity', g(k) + 1)])
 
 
 def _loop_entry(P):
@@ -152,15 +152,14 @@ def _loop_entry(P):
     too_short = env['too_short']
     son, soff = env['_zip0'], env['_zip1']
     Q = son.n
-    ckey = [kk for kk in E.st.ghost.get('cmap_axioms', {}) if kk[1] == too_short.ident][0]
-    mQ, G, cntG = E.st.ghost[ckey]
-    P.register('AXG', E.st.ghost['cmap_axioms'][ckey])          # assumed contract of boolean-mask selection
+    AXG, (mQ, G, cntG) = _cmap(E, too_short.ident)
+    AX, _ = _cmap(E, tr.meta['nonzero_of'].ident)
     p = z3.Int('lp')
-    SON = lambda x: _ti(E.rd(son, x))
-    SOFF = lambda x: _ti(E.rd(soff, x))
-    P.have('selected-bounds', z3.ForAll([p], z3.Implies(z3.And(0 <= p, p < Q),
-                                                        z3.And(0 <= SON(p), SON(p) <= SOFF(p), SOFF(p) <= n)), patterns=[G(p)]),
-           using=['AXG', 'AX', 'cnt-after-g', 't-even'])
+    SON = lambda v: _ti(E.rd(son, v))
+    SOFF = lambda v: _ti(E.rd(soff, v))
+    P.forall('selected-bounds', [p], z3.And(0 <= p, p < Q), z3.And(0 <= SON(p), SON(p) <= SOFF(p), SOFF(p) <= n),
+             by=[AXG['sel'](p), P.inst('cnt-after-g', 2 * G(p)), P.inst('cnt-after-g', 2 * G(p) + 1),
+                 AX['inc'](2 * G(p), 2 * G(p) + 1), P.inst('t-even')], patterns=[G(p)])
 
 
 def _before_return(P):
@@ -170,69 +169,94 @@ def _before_return(P):
     E, env, b, d, tr, n, g, cnt, t, bz, bp = _facts(P)
     from .specs import MR, minrun_def
     m = _ti(env['min_n_cycles']) if not isinstance(env['min_n_cycles'], int) else z3.IntVal(env['min_n_cycles'])
-    ons, offs, too_short = env['ons'], env['offs'], env['too_short']
+    too_short = env['too_short']
     son, soff = env['_zip0'], env['_zip1']
     Q = son.n
-    ckey = [kk for kk in E.st.ghost.get('cmap_axioms', {}) if kk[1] == too_short.ident][0]
-    mQ, G, cntG = E.st.ghost[ckey]
-    P.register('AXG', E.st.ghost['cmap_axioms'][ckey])          # assumed contract of boolean-mask selection
-    i, j, k, p, r = z3.Ints('qi qj qk qp qr')
-    old_b = lambda x: _zb(E.st.entry_heap[b.ident](x))
-    cur = lambda x: _zb(E.rd(b, x))
-    ON = lambda x: g(2 * x)
-    OFF = lambda x: g(2 * x + 1)
-    SON = lambda x: _ti(E.rd(son, x))
-    SOFF = lambda x: _ti(E.rd(soff, x))
-    SHORT = lambda x: _zb(E.rd(too_short, x))
-    half = t / 2
-    # the loop invariant at exit (named, so that it can be used selectively)
-    facts = E.st.ghost.setdefault('facts', {})
-    P.have('short-def', z3.ForAll([r], z3.Implies(z3.And(0 <= r, r < half), SHORT(r) == (OFF(r) - ON(r) < m))),
-           using=['t-even'])
-    P.have('selected-are-short', z3.ForAll([p], z3.Implies(z3.And(0 <= p, p < Q),
-                                                           z3.And(0 <= G(p), G(p) < half, SHORT(G(p)), SON(p) == ON(G(p)),
-                                                                  SOFF(p) == OFF(G(p)))), patterns=[G(p)]),
-           using=['AXG', 't-even'])
-    P.have('short-are-selected', z3.ForAll([r], z3.Implies(z3.And(0 <= r, r < half, SHORT(r)),
-                                                           z3.And(0 <= cntG(r), cntG(r) < Q, G(cntG(r)) == r)),
-                                           patterns=[cntG(r)]), using=['AXG', 't-even'])
+    AXG, (mQ, G, cntG) = _cmap(E, too_short.ident)
+    j, k, p, r, a, c = z3.Ints('qj qk qp qr qa qc')
+    b0 = lambda v: _zb(E.st.entry_heap[b.ident](v))
+    cur = lambda v: _zb(E.rd(b, v))
+    ON = lambda v: g(2 * v)
+    OFF = lambda v: g(2 * v + 1)
+    SON = lambda v: _ti(E.rd(son, v))
+    SOFF = lambda v: _ti(E.rd(soff, v))
+    SHORT = lambda v: _zb(E.rd(too_short, v))
+    H = t / 2
+    RUN = lambda v: (cnt(v + 1) - 1) / 2
+    TE = P.inst('t-even')
+    P.forall('short-def', [r], z3.And(0 <= r, r < H), SHORT(r) == (OFF(r) - ON(r) < m), by=[TE])
+    P.forall('selected-are-short', [p], z3.And(0 <= p, p < Q),
+             z3.And(0 <= G(p), G(p) < H, SHORT(G(p)), SON(p) == ON(G(p)), SOFF(p) == OFF(G(p))),
+             by=[AXG['sel'](p), TE], patterns=[G(p)])
+    P.forall('short-are-selected', [r], z3.And(0 <= r, r < H, SHORT(r)),
+             z3.And(0 <= cntG(r), cntG(r) < Q, G(cntG(r)) == r),
+             by=[AXG['hit'](r), AXG['rec'](r), TE], patterns=[cntG(r)])
     # the run of a True position j is r(j) = (cnt(j+1) - 1) / 2
-    RUN = lambda x: (cnt(x + 1) - 1) / 2
-    P.have('run-of-true', z3.ForAll([j], z3.Implies(z3.And(0 <= j, j < n, old_b(j)),
-                                                    z3.And(0 <= RUN(j), RUN(j) < half, 2 * RUN(j) + 1 == cnt(j + 1),
-                                                           ON(RUN(j)) <= j, j < OFF(RUN(j)))),
-                                    patterns=[cnt(j + 1)]), using=['true-odd', 'true-in-run', 't-even'])
-    P.have('covering-run-is-own-run', z3.ForAll([r, j], z3.Implies(z3.And(0 <= r, r < half, ON(r) <= j, j < OFF(r)),
-                                                                   z3.And(0 <= j, j < n, old_b(j), RUN(j) == r))),
-           using=['run-interior-cnt', 'run-interior-true', 't-even'])
-    P.register('INV', facts['loop1-exit'])
+    P.forall('run-of-true', [j], z3.And(0 <= j, j < n, b0(j)),
+             z3.And(0 <= RUN(j), RUN(j) < H, 2 * RUN(j) + 1 == cnt(j + 1), ON(RUN(j)) <= j, j < OFF(RUN(j))),
+             by=[P.inst('true-odd', j), P.inst('true-in-run', j), TE], patterns=[cnt(j + 1)])
+    P.forall('covering-run-is-own-run', [r, j], z3.And(0 <= r, r < H, ON(r) <= j, j < OFF(r)),
+             z3.And(0 <= j, j < n, b0(j), RUN(j) == r),
+             by=[P.inst('run-interior-cnt', 2 * r, j), P.inst('run-interior-true', 2 * r, j), TE])
     # cleared exactly when the own run is too short
-    P.have('cleared-iff-short', z3.ForAll([j], z3.Implies(z3.And(0 <= j, j < n, old_b(j)),
-                                                          cur(j) == z3.Not(SHORT(RUN(j)))), patterns=[cnt(j + 1)]),
-           using=['INV', 'run-of-true', 'covering-run-is-own-run', 'selected-are-short', 'short-are-selected'])
-    P.have('false-stays-false', z3.ForAll([j], z3.Implies(z3.And(0 <= j, j < n, z3.Not(old_b(j))), z3.Not(cur(j)))),
+    P.forall('covered-implies-short', [j, p], z3.And(0 <= j, j < n, b0(j), 0 <= p, p < Q, SON(p) <= j, j < SOFF(p)),
+             SHORT(RUN(j)),
+             by=[P.inst('selected-are-short', p), P.inst('covering-run-is-own-run', G(p), j)])
+    P.forall('short-implies-covered', [j], z3.And(0 <= j, j < n, b0(j), SHORT(RUN(j))),
+             z3.And(0 <= cntG(RUN(j)), cntG(RUN(j)) < Q, SON(cntG(RUN(j))) <= j, j < SOFF(cntG(RUN(j)))),
+             by=[P.inst('run-of-true', j), P.inst('short-are-selected', RUN(j)), P.inst('selected-are-short', cntG(RUN(j)))])
+    facts = E.st.ghost.setdefault('facts', {})
+    P.register('INV', facts['loop1-exit'])
+    P.have('cleared-iff-short', z3.ForAll([j], z3.Implies(z3.And(0 <= j, j < n, b0(j)), cur(j) == z3.Not(SHORT(RUN(j))))),
+           using=['INV', 'covered-implies-short', 'short-implies-covered'])
+    P.have('false-stays-false', z3.ForAll([j], z3.Implies(z3.And(0 <= j, j < n, z3.Not(b0(j))), z3.Not(cur(j)))),
            using=['INV'])
     # the definition of the spec function, at this array / length / count
     B0 = E.mat(_frozen_entry(E, b))
+    i = z3.Int('qi')
     defn = z3.ForAll([i], MR(B0, n, m, i) == minrun_def(B0, n, m, i), patterns=[MR(B0, n, m, i)])
     E.assumptions_quant(defn)
-    P.register('DEF', [defn, E.st.ghost['mat_axioms'][B0.get_id()]])
+    P.register('DEF', [defn])
+    MAT = lambda v: z3.Select(B0, v) == z3.If(z3.And(v >= 0, v < n), b0(v), False)      # instances of the mat axiom
+    P.forall('mat', [k], z3.BoolVal(True), MAT(k), by=[], patterns=[z3.Select(B0, k)]) if False else None
+    P.register('MATAX', [E.st.ghost['mat_axioms'][B0.get_id()]])
+    P.have('mat-inst', z3.ForAll([k], MAT(k), patterns=[z3.Select(B0, k)]), using=['MATAX'])
+    P.schema('mat-inst', lambda v: MAT(v))
+    # the own run is a window of True
+    P.forall('run-is-true-window', [j, k], z3.And(0 <= j, j < n, b0(j), ON(RUN(j)) <= k, k < OFF(RUN(j))), z3.Select(B0, k),
+             by=[P.inst('run-of-true', j), P.inst('covering-run-is-own-run', RUN(j), k), P.inst('mat-inst', k)])
     # long run => its own interval is the witness window
-    P.have('long-run-kept', z3.ForAll([j], z3.Implies(z3.And(0 <= j, j < n, old_b(j), z3.Not(SHORT(RUN(j)))), MR(B0, n, m, j)),
-                                      patterns=[cnt(j + 1)]),
-           using=['DEF', 'run-of-true', 'covering-run-is-own-run', 'short-def', 'cnt-after-g', 't-even'])
+    jj = z3.Int(fresh_name('jj'))
+    kk = z3.Int(fresh_name('kk'))
+    window_fact = z3.ForAll([kk], P.inst('run-is-true-window', jj, kk))
+    P.E.oblige_focused('proof', [z3.And(0 <= jj, jj < n, b0(jj), z3.Not(SHORT(RUN(jj)))), window_fact,
+                                 P.inst('run-of-true', jj), P.inst('short-def', RUN(jj)),
+                                 P.inst('cnt-after-g', 2 * RUN(jj) + 1), P.inst('cnt-after-g', 2 * RUN(jj)), TE,
+                                 P.inst('mat-inst', jj)],
+                       minrun_def(B0, n, m, jj), P.node,
+                       name='%s/proof@before_return:long-run-window' % E.fn_short, assume=False)
+    long_kept = z3.ForAll([j], z3.Implies(z3.And(0 <= j, j < n, b0(j), z3.Not(SHORT(RUN(j)))), minrun_def(B0, n, m, j)))
+    E.assumptions_quant(long_kept)          # generalisation of the step just proved for an arbitrary jj
+    facts['long-run-kept'] = long_kept
     # any True window around j lies inside j's run, so a window of length >= m makes the run long
-    a0, c0 = z3.Ints('qa qc')
-    P.have('window-inside-run', z3.ForAll([j, a0, c0], z3.Implies(
-        z3.And(0 <= a0, a0 <= j, j < c0, c0 <= n, old_b(j),
-               z3.ForAll([k], z3.Implies(z3.And(a0 <= k, k < c0), z3.Select(B0, k)))),
-        z3.And(ON(RUN(j)) <= a0, c0 <= OFF(RUN(j))))),
-        using=['DEF', 'run-of-true', 'run-left-end', 'run-right-end', 'cnt-after-g', 't-even'])
-    P.have('kept-only-if-long', z3.ForAll([j], z3.Implies(z3.And(0 <= j, j < n, MR(B0, n, m, j)),
-                                                          z3.And(old_b(j), z3.Not(SHORT(RUN(j))))), patterns=[MR(B0, n, m, j)]),
-           using=['DEF', 'window-inside-run', 'short-def', 'run-of-true'])
+    win = lambda v: z3.Implies(z3.And(a <= v, v < c), z3.Select(B0, v))
+    prem = z3.And(0 <= a, a <= j, j < c, c <= n, 0 <= j, j < n, b0(j),
+                  z3.ForAll([k], z3.Implies(z3.And(a <= k, k < c), z3.Select(B0, k))))
+    P.forall('window-inside-run', [j, a, c], prem, z3.And(ON(RUN(j)) <= a, c <= OFF(RUN(j))),
+             by=[P.inst('run-of-true', j), P.inst('run-left-end', 2 * RUN(j)), P.inst('run-right-end', 2 * RUN(j) + 1),
+                 P.inst('mat-inst', ON(RUN(j)) - 1), P.inst('mat-inst', OFF(RUN(j))),
+                 win(ON(RUN(j)) - 1), win(OFF(RUN(j))), TE])
+    prem2 = z3.And(prem, c - a >= m)
+    P.forall('window-makes-long', [j, a, c], prem2, z3.Not(SHORT(RUN(j))),
+             by=[P.inst('window-inside-run', j, a, c), P.inst('run-of-true', j), P.inst('short-def', RUN(j))])
+    P.have('kept-only-if-long', z3.ForAll([j], z3.Implies(z3.And(0 <= j, j < n, minrun_def(B0, n, m, j)),
+                                                          z3.And(b0(j), z3.Not(SHORT(RUN(j)))))),
+           using=['window-makes-long', 'mat-inst'])
     P.have('post', z3.ForAll([j], z3.Implies(z3.And(0 <= j, j < n), cur(j) == MR(B0, n, m, j))),
-           using=['cleared-iff-short', 'false-stays-false', 'long-run-kept', 'kept-only-if-long'])
+           using=['cleared-iff-short', 'false-stays-false', 'long-run-kept', 'kept-only-if-long', 'DEF'])
+
+
+from vf.values import fresh_name  # noqa: E402
 
 
 def _mentions(a, name):
